@@ -87,6 +87,8 @@ class VirtualLoop(asyncio.SelectorEventLoop):
 class Sim:
     """Context manager that owns one VirtualLoop for one case."""
 
+    _cases = 0
+
     def __init__(self):
         self.loop = VirtualLoop()
         self._entered = False
@@ -212,6 +214,9 @@ class Sim:
                 loop.close()
             finally:
                 asyncio.set_event_loop(None)
-        gc.collect()
+        # the case's garbage is young: collect generations 0-1 every time (0.1 ms) and everything now and then
+        # (a full collection costs ~9 ms with Hypothesis loaded and would dominate the run time)
+        Sim._cases += 1
+        gc.collect() if Sim._cases % 256 == 0 else gc.collect(1)
         if left:
             raise RuntimeError(f"tasks outlived the case: {left!r}")
